@@ -17,6 +17,7 @@ mod hist;
 mod c21;
 mod txn;
 mod c33;
+mod c34;
 
 /// Expands to a `match` over property ids calling the generic function `$f`
 /// with the check value followed by the extra arguments.
@@ -38,6 +39,7 @@ macro_rules! dispatch {
             "C14" => $f(txn::C14, $($extra),*),
             "C15" => $f(c09_15::C15, $($extra),*),
             "C33" => $f(c33::C33, $($extra),*),
+            "C34" => $f(c34::C34, $($extra),*),
             "C21" => $f(c21::C21, $($extra),*),
             other => {
                 eprintln!("unknown property id {}", other);
